@@ -146,7 +146,9 @@ func histAlphabet(p histParams) authAlphabet {
 			{Reset: true}, ans(malformedStatus, "malformed{")}
 	}
 	return authAlphabet{
-		Validate: faults(ans(200, "{}"), ans(403, "denied"), 200)[:7], // a malformed 200 body is still a 200 for /validate (the body is not read)
+		// (a malformed 200 body is still a 200 for /validate: the body is not read; the last answer asks the
+		// client to stay away for far longer than the validity TTL and the grace period)
+		Validate: append(faults(ans(200, "{}"), ans(403, "denied"), 200)[:7], harness.AuthAnswer{Status: 503, Body: "unavailable", Header: map[string]string{"Retry-After": "3600"}}),
 		Profile:  faults(member, removed, 200),
 		Refresh:  faults(okRefresh, ans(403, "denied"), 201),
 	}
